@@ -115,10 +115,15 @@ def run(prog: Program, res: Result, tier: str) -> None:
             doms = [s for s in seeks if flow.cfg.dominates(flow.cfg.node_for(s), flow.cfg.node_for(r))]
             if doms:
                 p = PolyEnv().poly(flow.expand(doms[0].args[0], flow.cfg.node_for(doms[0])))
-                if p == Poly.sym("start") * Poly.sym("self.samp_stride"):
-                    res.ok("R2", f, r, "the read is dominated by an absolute seek to start * bytes-per-sample", key=key)
+                stride = Poly.sym("self.samp_stride")
+                # p = (sample index) * bytes-per-sample: every term carries the stride exactly once
+                whole = bool(p.t) and all(dict(m).get("self.samp_stride", 0) == 1 for m in p.t)
+                q = Poly({tuple(x for x in m if x[0] != "self.samp_stride"): c for m, c in p.t.items()}) if whole else None
+                first = {"FilReader.read_block": Poly.sym("start"), "FilReader.read_plan": Poly.sym("start")}.get(f.qualname)
+                if whole and (first is None or q == first):
+                    res.ok("R2", f, r, f"the read is dominated by an absolute seek to sample `{q.canon()}` * bytes-per-sample", key=key)
                 else:
-                    res.bad("R2", f, doms[0], f"the positioning seek goes to {p.canon()}, not start * samp_stride", key=key)
+                    res.bad("R2", f, doms[0], f"the positioning seek goes to {p.canon()}, not (first sample wanted) * samp_stride", key=key)
             else:
                 res.bad("R2", f, r, "a read is not dominated by an absolute positioning seek in the same method: it would start wherever the "
                         "previous operation (or the header) left the stream", key=key)
